@@ -346,6 +346,13 @@ class Engine:
                 yield ("raise", Exc(v), st2)
             else:
                 raise Unsupported("raise of %r" % (v,))
+        if isinstance(s.exc, ast.Call):
+            # raise C(<message>): the class and the path condition are kept, the message arguments are not evaluated (extraction drop
+            # "message arguments of raise", listed in every evidence file)
+            outs = list(self.expr(s.exc.func, st))
+            if len(outs) == 1 and outs[0][0] == "val" and inspect.isclass(outs[0][1]) and issubclass(outs[0][1], BaseException):
+                yield ("raise", Exc(outs[0][1]), outs[0][2])
+                return
         yield from self.ev(s.exc, st, k)
 
     def s_Assert(self, s, st):
@@ -1194,7 +1201,9 @@ class Engine:
                 yield ("val", VStr(root, lift, "char[%d]" % ci), st.assume(ne))
             if self.feasible(st, z3.Not(ne)):
                 yield ("raise", Exc(IndexError), st.assume(z3.Not(ne)))
-        elif isinstance(o, SList):
+        elif isinstance(o, (SList, LRef)):
+            if isinstance(o, LRef):
+                o = self.contents(o, st)              # the list object as it is now
             iv = S(i)
             n = o.n
             idx = z3.If(iv < 0, iv + n, iv)
